@@ -99,10 +99,16 @@ func c08Build(cfg map[string]interface{}, rng *rand.Rand) (p4 string, grid [][2]
 		}
 		lats = []float64{lat1 - math.Copysign(8, lat1), lat1, (lat1 + lat2) / 2, lat2 + math.Copysign(10, lat2)}
 	case "tmerc":
+		if !hasHome && rng.Intn(3) == 0 { // a central meridian next to the antimeridian
+			lon0 = []float64{178.5, -179.25, 180}[rng.Intn(3)]
+		}
 		s += " +lat_0=" + F(r(-30, 30)) + " +lon_0=" + F(lon0) + " +k=" + F(r(0.9992, 1.0)) + " +x_0=" + F(r(0, 1e6)) + " +y_0=" + F(r(0, 1e6))
 		lats = []float64{-70, -20, -1.1, 0.25, 0.6, 0.9, 1.3, 1.6, 45, 80} // dense near the equator: the footpoint iteration is slowest there
 	case "utm":
 		zone := 1 + rng.Intn(60)
+		if rng.Intn(2) == 0 { // the two zones next to the antimeridian: half of their positions lie across it
+			zone = []int{1, 60}[rng.Intn(2)]
+		}
 		if hasHome {
 			zone = int(math.Floor((home[0]+180)/6)) + 1
 		}
